@@ -59,7 +59,16 @@ def run_impl(case):
                 K.attribute_names = [aname(k) for k in case['anames']]
         else:
             K = make_context(case)
+        for q in case.get('pre', []):
+            # earlier questions to the SAME context object; answers discarded (the model is stateless)
+            try:
+                _ask(K, q[0], q[1], q[2])
+            except Exception:
+                pass
         op, arg, base = case['op'], case['arg'], case['base']
+        return _ask(K, op, arg, base)
+
+    def _ask(K, op, arg, base):
         if op == 0:
             return canon(K.extension_i(list(arg), None if base is None else list(base)))
         if op == 1:
@@ -111,7 +120,7 @@ def stats(case):
     return {'shape': '%dx%d' % (len(t), len(t[0])), 'op': case['op'], 'backend': case['backend'],
             'base': 'none' if case['base'] is None else ('empty' if not case['base'] else 'given'),
             'arg': 'empty' if not case['arg'] else 'nonempty', 'kind': case.get('kind', ''),
-            'history': 'rename' if case.get('rename') else 'fresh'}
+            'history': ('rename' if case.get('rename') else 'fresh') + ('+queries' if case.get('pre') else '')}
 
 
 def _mk(backend, t, op, arg, base, onames=None, anames=None, kind=''):
@@ -156,6 +165,25 @@ def random_case(rng, max_dim):
             base_names.insert(rng.randint(0, len(base_names)), UNKNOWN + rng.randrange(5))
         arg, base = arg_names, base_names
     c = _mk(b, t, op, arg, base, onames, anames, kind + ('+dup' if dup else ''))
+    if rng.random() < 0.3:
+        # query history on one object: same operator family, the same or a sub-/super-set argument,
+        # other base sets (a cache keyed too coarsely answers the later question from the earlier one)
+        pre = []
+        for _ in range(rng.randint(1, 3)):
+            a2 = list(arg)
+            r = rng.random()
+            if r < 0.3 and a2:
+                a2 = [rng.choice(a2)]
+            elif r < 0.5:
+                a2 = a2[:rng.randint(0, len(a2))]
+            n_b = (w if on_rows else h)
+            pool = (anames if on_rows else onames) if op >= 4 else list(range(n_b))
+            b2 = None if rng.random() < 0.3 else rng.sample(pool, rng.randint(0, len(pool)))
+            if op in (5, 7):
+                b2 = None
+            pre.append([op, a2, b2])
+        c['pre'] = pre
+        c['kind'] += '+pre'
     if op >= 4 and rng.random() < 0.2:
         # rename history: the context is first built under other names (partly overlapping with the
         # final ones, so that a stale lookup table gives a wrong column rather than a KeyError)
